@@ -116,10 +116,13 @@ Section Machine.
     | [] =>
       let over := rwl s <? len d in
       let d1 := if over then take (rwl s) d else d in
-      let s1 := if over then emit CbStop (set_writing false (set_buf (drop (rwl s) d) s)) else s in
+      let s1 := if over then set_writing false (set_buf (drop (rwl s) d) s) else s in
       let s2 := fold_left send_data (chunks (length d1) rmp d1) s1 in
       let s3 := set_rwl (rwl s2 - len d1) s2 in
-      if closing s3 && is_nil (buf s3) then lose s3 else s3
+      (* stopWriting() is called once the packets are out and the window is charged
+         (fixes/C36-stopwriting-after-accounting.patch) *)
+      let s4 := if over then emit CbStop s3 else s3 in
+      if closing s4 && is_nil (buf s4) then lose s4 else s4
     end.
 
   (** SSHChannel.writeExtended *)
@@ -129,10 +132,11 @@ Section Machine.
     | [] =>
       let over := rwl s <? len d in
       let d1 := if over then take (rwl s) d else d in
-      let s1 := if over then emit CbStop (set_writing false (set_ext [(t, drop (rwl s) d)] s)) else s in
+      let s1 := if over then set_writing false (set_ext [(t, drop (rwl s) d)] s) else s in
       let s2 := fold_left (send_ext t) (chunks (length d1) rmp d1) s1 in
       let s3 := set_rwl (rwl s2 - len d1) s2 in
-      if closing s3 then lose s3 else s3
+      let s4 := if over then emit CbStop s3 else s3 in
+      if closing s4 then lose s4 else s4
     end.
 
   Definition write_ext_all (s : st) (es : list (N * bytes)) : st :=
